@@ -79,14 +79,131 @@ def gen(rng, tier):
             # ... also when the lifespan application stored nothing, or there is no lifespan support at all
             yield {"family": "state.empty", "backend": be, "phase": "state", "script": "complete_empty", "activity": "two_conns", "rep": rep}
             yield {"family": "state.no-lifespan", "backend": be, "phase": "state", "script": "raise_before_receive", "activity": "two_conns", "rep": rep}
+            # the real master process and its spawn-ed workers
+            for which, workers in ((("failing", 1), ("failing", 2), ("raising", 1), ("ok", 2)) if tier == "quick" else
+                                   (("failing", 1), ("failing", 2), ("failing", 3), ("raising", 1), ("raising", 2), ("ok", 1), ("ok", 2))):
+                yield {"family": "process.%s.w%d" % (which, workers), "backend": be, "phase": "process", "script": which, "workers": workers, "activity": "probe", "rep": rep}
 
 
 REQ = b"GET /t%d HTTP/1.1\r\nHost: h\r\n\r\n"
 
 
+def _process_startup(case, tally):
+    """The real master (python -m hypercorn) with spawn-ed workers and a real importable application.  failing: start-up fails
+    (lifespan.startup.failed) - the server has to abort *with an error* (a non-zero exit status is the only error a supervisor sees) and no
+    request may be served; raising: no lifespan support - serving works, SIGTERM ends the master with status 0; ok: every worker's
+    lifespan.startup precedes every request it takes on.  Counts and order from the application's own log; wall clock only as a watchdog."""
+    import os, shutil, signal, socket, subprocess, sys, tempfile
+
+    findings = []
+    be, workers, which = case["backend"], case["workers"], case["script"]
+    d = tempfile.mkdtemp(prefix="hv-c14p-")
+    path, logf = os.path.join(d, "s.sock"), os.path.join(d, "log")
+    target = {"failing": "hv.apps.procapp:failing_app", "raising": "hv.apps.procapp:raising_app", "ok": "hv.apps.procapp:app"}[which]
+    cmd = [sys.executable, "-m", "hypercorn", "--bind", "unix:" + path, "--workers", str(workers), "--worker-class", be, "--graceful-timeout", "2", target]
+    proc = subprocess.Popen(cmd, env=dict(os.environ, HV_PROC_LOG=logf), stdout=subprocess.PIPE, stderr=subprocess.STDOUT, cwd=d)
+    served, rc, out = [], None, b""
+
+    def ask(i):
+        c = socket.socket(socket.AF_UNIX)
+        c.settimeout(3.0)
+        try:
+            c.connect(path)
+            c.sendall(b"GET /p%d HTTP/1.1\r\nHost: h\r\nConnection: close\r\n\r\n" % i)
+            buf = b""
+            while True:
+                x = c.recv(65536)
+                if not x:
+                    break
+                buf += x
+            return buf
+        except OSError:
+            return None
+        finally:
+            c.close()
+
+    try:
+        if which == "failing":
+            end = time.monotonic() + 25.0
+            i = 0
+            while time.monotonic() < end and proc.poll() is None:
+                i += 1
+                r = ask(i) if os.path.exists(path) else None
+                if r:
+                    served.append(r[:40])
+                time.sleep(0.05)
+            if proc.poll() is None:
+                rc = "timeout"
+            else:
+                rc = proc.returncode
+        else:
+            end = time.monotonic() + 20.0
+            got = 0
+            i = 0
+            while time.monotonic() < end and got < 3 * workers and proc.poll() is None:
+                i += 1
+                r = ask(i) if os.path.exists(path) else None
+                if r and r.startswith(b"HTTP/1.1 200"):
+                    got += 1
+                    served.append(r[:40])
+                else:
+                    time.sleep(0.05)
+            proc.send_signal(signal.SIGTERM)
+            try:
+                out, _ = proc.communicate(timeout=20.0)
+                rc = proc.returncode
+            except subprocess.TimeoutExpired:
+                rc = "timeout"
+    finally:
+        if proc.poll() is None:
+            proc.kill()
+            proc.communicate()
+        log = [ln.split() for ln in (open(logf).read().splitlines() if os.path.exists(logf) else [])]
+        shutil.rmtree(d, ignore_errors=True)
+    log = [f for f in log if len(f) == 4]
+    tally.events["proc.log-lines"] += len(log)
+    if rc == "timeout" and which != "failing":
+        tally.inconclusive["process-run-did-not-finish"] += 1
+        return findings, [None]
+    tally.clause("process-startup")
+    if which == "failing":
+        if not any(f[2] == "lifespan" and f[3] == "startup" for f in log):
+            tally.inconclusive["process-run-lifespan-never-started"] += 1
+            return findings, [None]
+        if served or any(f[2] == "start" for f in log):
+            findings.append({"clause": "failure-aborts", "sig": "C14.process/served-after-startup-failed/%s" % be, "backend": be,
+                             "detail": "lifespan.startup.failed, yet requests were served: %r" % served[:3]})
+        if rc == "timeout":
+            findings.append({"clause": "failure-aborts", "sig": "C14.process/not-aborted/%s" % be, "backend": be,
+                             "detail": "lifespan.startup.failed in every worker and the master was still running 25 s later (workers=%d)" % workers})
+        elif rc == 0:
+            findings.append({"clause": "failure-aborts", "sig": "C14.process/exit-status-0-after-startup-failed/%s" % be, "backend": be,
+                             "detail": "lifespan.startup.failed: the master process ended with exit status 0, i.e. without an error (workers=%d)" % workers})
+    else:
+        if not served:
+            findings.append({"clause": "serves-without-lifespan" if which == "raising" else "order", "sig": "C14.process/nothing-served/%s/%s" % (which, be), "backend": be,
+                             "detail": "no request was answered within 20 s (workers=%d)" % workers})
+        for pid in sorted({f[1] for f in log}):
+            mine = [f for f in log if f[1] == pid]
+            if which == "ok":
+                su = [k for k, f in enumerate(mine) if f[2] == "lifespan" and f[3] == "startup"]
+                st = [k for k, f in enumerate(mine) if f[2] == "start"]
+                if st and (not su or su[0] > st[0]):
+                    findings.append({"clause": "order", "sig": "C14.process/request-before-startup/%s" % be, "backend": be,
+                                     "detail": "worker %s took on a request before its lifespan.startup" % pid})
+                if len(su) > 1:
+                    findings.append({"clause": "order", "sig": "C14.process/startup-count-%d/%s" % (len(su), be), "backend": be, "detail": "worker %s" % pid})
+        if rc != 0:
+            findings.append({"clause": "shutdown-once", "sig": "C14.process/exit-status-after-sigterm/%s/%s" % (which, be), "backend": be,
+                             "detail": "SIGTERM after an orderly run: the master exited with status %r" % rc})
+    return findings, [None]
+
+
 def run_one(case, tally):
     findings = []
     be = case["backend"]
+    if case["phase"] == "process":
+        return _process_startup(case, tally)
     phase = case["phase"]
     scripts = _startup_scripts() if phase in ("startup", "state") else _shutdown_scripts()
     scripts = dict(scripts, complete_empty=[["recv"], ["send", {"type": "lifespan.startup.complete"}], ["recv"], ["send", {"type": "lifespan.shutdown.complete"}]])
